@@ -575,6 +575,11 @@ class Bits:
                     for cand in ([loc] if loc is not None else []) + ([tg.local] if tg is not None and tg.is_local else []):
                         f = f or st.get(("and", cand))
                     if f is None:
+                        # x == 0 / x != 0 on the flag value itself: no bit of x is set
+                        if len(ob_val.alts) == 1 and (ob_val.alts[0].s | ob_val.alts[0].c) == M64 and ob_val.alts[0].s == 0 and fact is None:
+                            k0 = self.base_key(oa)
+                            if k0 is not None:
+                                fact = ("cond", ("iszero", self._resolve_alias(st, k0), M64, kind == "t_eq"))
                         continue
                     cst = None
                     if len(ob_val.alts) == 1 and (ob_val.alts[0].s | ob_val.alts[0].c) == M64:
